@@ -14,4 +14,11 @@ def seek_harnesses(prefix=""):
     return out
 HARNESSES += seek_harnesses()
 
+import importlib.util, os
+def _load(n):
+    spec = importlib.util.spec_from_file_location("reg_%s_x" % n, os.path.join(os.path.dirname(os.path.abspath(__file__)), n + ".py"))
+    m = importlib.util.module_from_spec(spec); spec.loader.exec_module(m); return m
+# partition independence at codec level (one call == two calls) for the sample-granular codecs
+HARNESSES += [h for h in _load("sg_common").sg_harnesses(("SEL_RD",)) if h.name.split(".")[1] in ("pcm_16le", "pcm_24be", "float_le", "double_be", "ulaw", "alaw", "pcm_u8", "pcm_32be")]
+
 META = {"assumptions": ["I_open handle invariant", "K-seek: codec seek returns the target or -1"], "outside": []}
